@@ -27,6 +27,10 @@ pub enum EndKind {
     StopTrigger,
     /// Every consumer leaves; the runtime is given its `empty_timeout`.
     AllLeave,
+    /// C17: every consumer leaves (both halves), the lane sends three more events with a quiet point
+    /// after each (the read task only learns that a consumer has gone when forwarding fails), then
+    /// nothing at all happens for five timeouts of virtual time. Nothing closes the link.
+    FinalIdle,
     /// Nothing: the case ends at the quiescent point.
     Nothing,
 }
@@ -38,6 +42,7 @@ impl EndKind {
             EndKind::SocketClosed => "socket-closed",
             EndKind::StopTrigger => "stop-trigger",
             EndKind::AllLeave => "all-leave",
+            EndKind::FinalIdle => "final-idle",
             EndKind::Nothing => "none",
         }
     }
@@ -66,6 +71,9 @@ pub struct Config {
     pub timeout_ms: u64,
     /// The script may contain lane-side faults and virtual-time steps (parts `faults-*`).
     pub faults: bool,
+    /// Parts `inactivity-*` (C17): consumers come and go around the `empty_timeout`, no lane-side
+    /// faults, the conversation ends with `EndKind::FinalIdle`.
+    pub inactivity: bool,
 }
 
 pub const LONG_TIMEOUT_MS: u64 = 5000;
@@ -213,6 +221,7 @@ impl<'a> Gen<'a> {
             consumers,
             timeout_ms: LONG_TIMEOUT_MS,
             faults: false,
+            inactivity: false,
         }
     }
 
@@ -318,6 +327,177 @@ impl<'a> Gen<'a> {
         let ev = self.lane_change(cfg);
         steps.push(Step::LaneApply(ev));
         steps.push(Step::Settle);
+    }
+
+    /// Configuration of the `inactivity-*` parts (C17): `empty_timeout` of 20 / 60 ms of virtual time,
+    /// three to six consumers that attach one after the other (each once), no lane-side faults, and the
+    /// conversation ends with the final idle period.
+    pub fn inactivity_config(&mut self, kind: LaneKind) -> Config {
+        let mut cfg = self.config(kind);
+        let rng = &mut *self.rng;
+        cfg.faults = true;
+        cfg.inactivity = true;
+        cfg.timeout_ms = *rng.pick(&[20, 60]);
+        cfg.end = EndKind::FinalIdle;
+        let n = rng.range(3, 7) as usize;
+        while cfg.consumers.len() < n {
+            let again = cfg.consumers[rng.usize_below(cfg.consumers.len())].clone();
+            cfg.consumers.push(ConsCfg { sync: rng.bool(), keep: rng.bool(), ..again });
+        }
+        cfg.consumers.truncate(n);
+        if cfg.clearer.map_or(false, |c| c >= n) {
+            cfg.clearer = None;
+        }
+        // (half of the conversations have no paced / tiny channels at all: the instants at which the
+        // tasks of the runtime learn of a departure are then exactly those of the script)
+        if rng.bool() {
+            cfg.jitter = 0;
+            cfg.lane_pace = FAST;
+            for c in cfg.consumers.iter_mut() {
+                c.pace = FAST;
+            }
+        }
+        cfg
+    }
+
+    /// A gap around the timeout: well below, just below, at, just above, well above.
+    fn gap(&mut self, t: u64) -> u64 {
+        *self.rng.pick(&[t / 3, t / 2, t - 3, t - 2, t - 1, t, t + 1, t + 1, t + 2, t + 3, t + 5, 2 * t + 1, 3 * t + 5])
+    }
+
+    /// One consumer goes away: both halves at once, or one half first and the other a little (or a
+    /// whole timeout) later.
+    fn leave(&mut self, t: u64, c: usize, steps: &mut Vec<Step>) {
+        let between = |g: &mut Self, steps: &mut Vec<Step>| match g.rng.below(4) {
+            0 => {}
+            1 => steps.push(Step::Settle),
+            2 => steps.push(Step::Advance(t / 3)),
+            _ => steps.push(Step::Advance(t + 1)),
+        };
+        match self.rng.below(10) {
+            0..=5 => steps.push(Step::DropBoth(c)),
+            6 | 7 => {
+                steps.push(Step::DropReader(c));
+                between(self, steps);
+                steps.push(if self.rng.bool() { Step::DropWriter(c) } else { Step::CloseWriter(c) });
+            }
+            _ => {
+                steps.push(if self.rng.bool() { Step::DropWriter(c) } else { Step::CloseWriter(c) });
+                between(self, steps);
+                steps.push(Step::DropReader(c));
+            }
+        }
+    }
+
+    /// Something happens in a session: a command, a lane event, a little virtual time.
+    fn session_activity(&mut self, cfg: &Config, attached: &[usize], steps: &mut Vec<Step>) {
+        let t = cfg.timeout_ms;
+        for _ in 0..self.rng.range(0, 5) {
+            match self.rng.below(8) {
+                0 | 1 if !attached.is_empty() => {
+                    let c = *self.rng.pick(attached);
+                    let cmd = self.cmd(cfg, c);
+                    steps.push(Step::Cmd(c, cmd));
+                }
+                2 | 3 | 4 => {
+                    let ev = self.lane_change(cfg);
+                    steps.push(Step::LaneApply(ev));
+                }
+                5 => steps.push(Step::Advance(*self.rng.pick(&[1, t / 4, t / 2, t - 1]))),
+                6 => steps.push(Step::Yield(self.rng.range(1, 6) as u32)),
+                _ => steps.push(Step::Settle),
+            }
+        }
+        steps.push(self.settle_or_yield());
+    }
+
+    /// A conversation of the `inactivity-*` parts: consumers come and go. Between the departure of
+    /// one and the arrival of the next the lane sends zero to three events (two, each followed by a
+    /// quiet point, make the read task see that the consumer has gone; the write task sees the end
+    /// of its command stream at once) and a gap of virtual time passes that is just below, at or
+    /// just above the timeout (or far from it). Now and then a second consumer is there at the same
+    /// time, a consumer leaves half by half, or the write task is parked on a write to a lane that is
+    /// not reading when the consumer leaves (it cannot time out then).
+    pub fn inactivity_script(&mut self, cfg: &Config, max_ops: usize) -> Vec<Step> {
+        let t = cfg.timeout_ms;
+        let n = cfg.consumers.len();
+        let mut steps: Vec<Step> = vec![];
+        let mut next = 0usize;
+        if self.rng.chance(1, 5) {
+            // nobody attaches for a while after the start (both tasks start with their timers running:
+            // a whole timeout ends the conversation there and then)
+            let g = *self.rng.pick(&[t / 3, t / 2, t - 2, t - 1, t - 1, t, t + 1]);
+            steps.push(Step::Advance(g));
+        }
+        while next < n && steps.len() + 12 < max_ops {
+            let mut attached = vec![next];
+            steps.push(Step::Attach(next));
+            next += 1;
+            steps.push(self.settle_or_yield());
+            self.session_activity(cfg, &attached, &mut steps);
+            if next < n && self.rng.chance(1, 4) {
+                // a second consumer joins while the first is there
+                attached.push(next);
+                steps.push(Step::Attach(next));
+                next += 1;
+                self.session_activity(cfg, &attached, &mut steps);
+            }
+            let parked = self.rng.chance(1, 8);
+            if parked {
+                // the write task is parked on a write to a lane that is not reading
+                let x = *self.rng.pick(&attached);
+                steps.push(Step::LaneStallRead);
+                for _ in 0..self.rng.range(1, 3) {
+                    let cmd = self.cmd(cfg, x);
+                    steps.push(Step::Cmd(x, cmd));
+                }
+                steps.push(self.settle_or_yield());
+            }
+            // everybody leaves
+            self.rng.shuffle(&mut attached);
+            for (i, c) in attached.iter().enumerate() {
+                if i > 0 && self.rng.bool() {
+                    steps.push(Step::Advance(*self.rng.pick(&[1, t / 3, t - 1, t + 1])));
+                }
+                self.leave(t, *c, &mut steps);
+            }
+            if self.rng.chance(3, 4) {
+                steps.push(Step::Settle);
+            }
+            // lane traffic after the departure, and the gap. (Two events and a gap of more than the
+            // timeout and a few milliseconds let both tasks vote: the runtime stops and the rest of the
+            // conversation talks to nobody. Most conversations should get to their final idle period
+            // with the runtime running, so that combination is made rare.)
+            let mut evs = *self.rng.pick(&[0, 0, 1, 2, 2, 2, 3]);
+            let g = self.gap(t);
+            if evs >= 2 && g > t + 2 && !parked && self.rng.chance(7, 8) {
+                evs = self.rng.below(2);
+            }
+            for _ in 0..evs {
+                let ev = self.lane_change(cfg);
+                steps.push(Step::LaneApply(ev));
+                steps.push(Step::Settle);
+            }
+            steps.push(Step::Advance(g));
+            if parked && self.rng.chance(2, 3) {
+                steps.push(Step::LaneUnstallRead);
+                if self.rng.bool() {
+                    let g = self.gap(t);
+                    steps.push(Step::Advance(g));
+                }
+            }
+            if self.rng.chance(1, 4) {
+                // traffic while (perhaps) one of the votes is outstanding, and a second short gap
+                let ev = self.lane_change(cfg);
+                steps.push(Step::LaneApply(ev));
+                steps.push(Step::Settle);
+                if self.rng.bool() {
+                    steps.push(Step::Advance(*self.rng.pick(&[1, 2, 3, t / 3])));
+                }
+            }
+        }
+        steps.truncate(max_ops);
+        steps
     }
 
     fn cmd(&mut self, cfg: &Config, c: usize) -> Cmd {
@@ -590,6 +770,7 @@ pub fn grid_case(idx: u64) -> (Config, Vec<Step>, JoinPhase) {
         lane_bulk: false,
         timeout_ms: LONG_TIMEOUT_MS,
         faults: false,
+        inactivity: false,
     };
     let mut lane_n = 1u64;
     let mut change = |steps: &mut Vec<Step>| {
@@ -739,6 +920,7 @@ pub fn directed_case(idx: u64) -> (Config, Vec<Step>, &'static str) {
         lane_bulk: false,
         timeout_ms: LONG_TIMEOUT_MS,
         faults: false,
+        inactivity: false,
     };
     (cfg, s, DIRECTED_SCENARIOS[scenario])
 }
@@ -921,6 +1103,194 @@ pub fn fault_case(idx: u64) -> (Config, Vec<Step>, &'static str) {
         lane_bulk: false,
         timeout_ms: t,
         faults: true,
+        inactivity: false,
     };
     (cfg, s, FAULT_SCENARIOS[scenario])
+}
+
+// ------------------------------------------------------------------------------------------------
+// Directed inactivity scenarios (C17): consumers come and go around the `empty_timeout`; every
+// conversation ends with the final idle period. Instants in the comments: A leaves at T0, every
+// `Settle` is 1 ms of virtual time, t is the timeout.
+
+pub const INACTIVITY_SCENARIOS: [&str; 7] = [
+    "come-and-go-silent-lane",
+    "come-and-go-between-the-two-votes",
+    "come-and-go-gap-below-the-timeout",
+    "reader-leaves-first-writer-later",
+    "writer-closes-reader-keeps-listening",
+    "nobody-ever-attaches",
+    "come-and-go-twice",
+];
+pub const INACTIVITY_VARIANTS: u64 = 5;
+pub const INACTIVITY_CASES: u64 = 2 * 7 * 4 * 4 * 2 * INACTIVITY_VARIANTS;
+
+pub fn inactivity_case(idx: u64) -> (Config, Vec<Step>, &'static str) {
+    let mut i = idx;
+    let mut take = |n: u64| {
+        let r = i % n;
+        i /= n;
+        r
+    };
+    let kind = if take(2) == 0 { LaneKind::Value } else { LaneKind::Map };
+    let scenario = take(7) as usize;
+    let oa = take(4);
+    let ob = take(4);
+    let t: u64 = if take(2) == 0 { 20 } else { 60 };
+    let var = take(INACTIVITY_VARIANTS);
+    let init = match kind {
+        LaneKind::Value => St::V(0),
+        LaneKind::Map => St::M((0..2).map(|j| (lane_key(j), 1000 + j)).collect()),
+    };
+    let mut lane_n = 1u64;
+    let mut change = |steps: &mut Vec<Step>| {
+        let ev = match kind {
+            LaneKind::Value => Ev::Set(lane_n),
+            LaneKind::Map => Ev::Upd(lane_key(3 + lane_n % 2), lane_n),
+        };
+        lane_n += 1;
+        steps.push(Step::LaneApply(ev));
+        steps.push(Step::Settle);
+    };
+    let cmd = |c: usize, n: u64| {
+        let v = ((c as u64 + 1) << 32) | n;
+        match kind {
+            LaneKind::Value => Cmd::Set(v),
+            LaneKind::Map => Cmd::Upd(consumer_key(c, n % 2), v),
+        }
+    };
+    let cons = |o: u64| ConsCfg { sync: o & 1 == 1, keep: o & 2 == 2, cap_note: 4096, cap_cmd: 4096, pace: FAST };
+    let mut s = vec![];
+    // A's session
+    let session = |s: &mut Vec<Step>, c: usize, change: &mut dyn FnMut(&mut Vec<Step>)| {
+        s.push(Step::Attach(c));
+        s.push(Step::Settle);
+        s.push(Step::Cmd(c, cmd(c, 0)));
+        s.push(Step::Settle);
+        change(s);
+    };
+    match scenario {
+        0 => {
+            // The lane is silent after A left: the read task does not know, only the write task votes
+            // (at T0 + t). B's arrival makes it withdraw a vote that is outstanding alone.
+            session(&mut s, 0, &mut change);
+            s.push(Step::DropBoth(0));
+            s.push(Step::Advance([t + 1, t + 2, t + 5, 2 * t + 1, 3 * t][var as usize]));
+            s.push(Step::Attach(1));
+            s.push(Step::Settle);
+            change(&mut s);
+            s.push(Step::DropBoth(1));
+            s.push(Step::Settle);
+        }
+        1 => {
+            // Two events tell the read task: its timer starts at T0 + 2, the write task's at T0. B
+            // arrives at T0 + t + var - 1: before both votes / at the write task's vote / between the
+            // two / at the read task's vote / after the stop.
+            session(&mut s, 0, &mut change);
+            s.push(Step::DropBoth(0));
+            s.push(Step::Settle);
+            change(&mut s);
+            change(&mut s);
+            s.push(Step::Advance(t - 4 + var));
+            s.push(Step::Attach(1));
+            s.push(Step::Settle);
+            change(&mut s);
+            s.push(Step::DropBoth(1));
+            s.push(Step::Settle);
+        }
+        2 => {
+            session(&mut s, 0, &mut change);
+            s.push(Step::DropBoth(0));
+            if var >= 3 {
+                s.push(Step::Settle);
+                change(&mut s);
+                change(&mut s);
+            }
+            s.push(Step::Advance([t / 3, t - 2, t - 1, t / 2, t - 5][var as usize]));
+            s.push(Step::Attach(1));
+            s.push(Step::Settle);
+            change(&mut s);
+            s.push(Step::DropBoth(1));
+            s.push(Step::Settle);
+        }
+        3 => {
+            session(&mut s, 0, &mut change);
+            s.push(Step::DropReader(0));
+            s.push(Step::Settle);
+            change(&mut s);
+            change(&mut s);
+            // the read task votes alone, A's command channel is still open
+            s.push(Step::Advance(t + 1 + var));
+            s.push(if var % 2 == 0 { Step::DropWriter(0) } else { Step::CloseWriter(0) });
+            s.push(Step::Advance(t - 1));
+            s.push(Step::Attach(1));
+            s.push(Step::Settle);
+            change(&mut s);
+            s.push(Step::DropBoth(1));
+            s.push(Step::Settle);
+        }
+        4 => {
+            session(&mut s, 0, &mut change);
+            s.push(Step::CloseWriter(0));
+            // the write task votes alone, A keeps listening
+            s.push(Step::Advance(t + 1 + var));
+            change(&mut s);
+            s.push(Step::Advance(t + 1));
+            change(&mut s);
+            if var >= 2 {
+                s.push(Step::Attach(1));
+                s.push(Step::Settle);
+                change(&mut s);
+                s.push(Step::DropBoth(1));
+                s.push(Step::Settle);
+            }
+            s.push(Step::DropReader(0));
+            s.push(Step::Settle);
+        }
+        5 => {
+            if var >= 1 {
+                s.push(Step::Advance([0, t / 2, t - 1, t, t + 1][var as usize]));
+            }
+            if var == 2 {
+                s.push(Step::Attach(0));
+                s.push(Step::Settle);
+                s.push(Step::DropBoth(0));
+                s.push(Step::Settle);
+            }
+        }
+        _ => {
+            // A leaves, B arrives while only the write task's vote is outstanding, B leaves, C arrives
+            // likewise, C leaves.
+            session(&mut s, 0, &mut change);
+            s.push(Step::DropBoth(0));
+            s.push(Step::Advance(t + 1 + var));
+            session(&mut s, 1, &mut change);
+            s.push(Step::DropBoth(1));
+            if var >= 3 {
+                s.push(Step::Settle);
+                change(&mut s);
+            }
+            s.push(Step::Advance(t + 1));
+            session(&mut s, 2, &mut change);
+            s.push(Step::DropBoth(2));
+            s.push(Step::Settle);
+        }
+    }
+    let cfg = Config {
+        kind,
+        consumers: vec![cons(oa), cons(ob), cons(oa ^ 1)],
+        cap_sock_out: 4096,
+        cap_sock_in: 4096,
+        lane_pace: FAST,
+        att_queue: 8,
+        jitter: 0,
+        init,
+        end: EndKind::FinalIdle,
+        clearer: None,
+        lane_bulk: false,
+        timeout_ms: t,
+        faults: true,
+        inactivity: true,
+    };
+    (cfg, s, INACTIVITY_SCENARIOS[scenario])
 }
